@@ -163,8 +163,12 @@ Definition select_quic (uses : bool) (c : config) (boot : N) (sni : option (list
   | _ => bootstrap boot
   end.
 
-(* TlsHostsSettings::validate: non-empty main hosts, host names unique across the four lists,
-   certificates loadable (the [loadable] oracle stands for utils::load_certs / load_private_key) *)
+(* TlsHostsSettings::validate: non-empty main hosts, certificates loadable (the [loadable] oracle stands for
+   utils::load_certs / load_private_key; a file without any certificate does not load), and every name designates at
+   most one host entry. An entry answers to its host name and, a main host, to its alternative SNIs ([claims], in the
+   order validate walks the groups: main, ping, speedtest, reverse proxy). validate_tls_hosts threads one set of the
+   names taken so far through the four groups: a host whose name or alternative SNI is already in the set is refused,
+   then all its names are added - a name repeated within one entry is not an error. *)
 Fixpoint nodupb (l : list (list N)) : bool :=
   match l with
   | [] => true
@@ -174,7 +178,18 @@ Fixpoint nodupb (l : list (list N)) : bool :=
 Definition all_names (c : config) : list (list N) :=
   main_names c ++ c_ping c ++ c_speed c ++ c_rp c.
 
-Definition valid_hosts (c : config) : bool := negb (is_nil (c_main c)) && nodupb (all_names c).
+Definition host_names (h : main_host) : list (list N) := mh_name h :: mh_alts h.
+
+Definition claims (c : config) : list (list (list N)) :=
+  map host_names (c_main c) ++ map (fun n => [n]) (c_ping c ++ c_speed c ++ c_rp c).
+
+Fixpoint names_free (taken : list (list N)) (entries : list (list (list N))) : bool :=
+  match entries with
+  | [] => true
+  | e :: r => negb (existsb (fun x => existsb (name_eqb x) taken) e) && names_free (e ++ taken) r
+  end.
+
+Definition valid_hosts (c : config) : bool := negb (is_nil (c_main c)) && names_free [] (claims c).
 
 (* Core::reload_tls_hosts_settings under the write lock: a failed validation or construction
    leaves the previous demultiplexer in place *)
